@@ -441,12 +441,18 @@ def run(tier, V):
             V.violation(key, what, wit)
     cov.update({'dir_calls': nd, 'dir_lines_with_run_model': nmod, 'lines_with_reversed_runs': nontriv, 'lines_with_mark_patterns': nmarked, 'ren_position_calls': nren,
                 'shape_lines': ns, 'shape_lines_changed': nshaped, 'letters_in_table': len(letters)})
+    # the real binary: l / h / N| on lines with right-to-left runs and contexts, also after a prompt that was opened and cancelled
+    # (what the user sees of the reordering: the same monitor as C17's binary part, run here for the reordering property)
+    import c17bin
+    bcov = c17bin.run(tier, V)
+    cov['binary_runs'] = bcov.get('binary_runs', 0)
+    cov['binary_runs_with_reversed_runs'] = bcov.get('binary_nontrivial', 0)
     cov['evaluations'] = nd + nren + ns
     cov['distinct_nontrivial'] = nontriv + nshaped
     cov['exhaustive'] = True
     cov['rule'] = ('dir_reorder on ALL lines up to length %d over {a,1,space,-,beh,alef,shadda,ZWNJ} (+%d random longer mixes incl. mark patterns and lines around lim) x td -2..2: permutation, '
                    'terminator last, guard cell untouched, base direction, run-reversal model; the same lines through ren_position for order 1/2, lim 3/256; every table letter x 8 previous x 9 next '
-                   'contexts x diacritics x shape on/off against Unicode decomposition data.  non-trivial = a line in which the model reverses a run / a line in which a letter was reshaped.' % (maxlen, nrand))
+                   'contexts x diacritics x shape on/off against Unicode decomposition data; the real binary moves by l/h/N| over such lines (also after cancelled prompts).  non-trivial = a line in which the model reverses a run / a line in which a letter was reshaped.' % (maxlen, nrand))
     cov['samples'] = [{'line': 'a بب1 ا-ب c\n', 'td': 0}, {'line': lines[-3], 'td': -1}, {'shape_line': slines[777 % len(slines)]}]
     assumptions = ['CR2L/CNEUT from conf.h define right-to-left and neutral characters; lines containing \\ $ ` \' (other configured marks) are checked for the permutation/terminator clauses only',
                    'joining behaviour derived from Unicode presentation-form decompositions; U+0649 treated as right-joining (documented exception)',
